@@ -7,7 +7,7 @@ MODEL_FILES = ["Base/Str.v", "Base/Json.v", "Gen/GenDiffTables.v", "Tools/DiffTy
                "Tools/DiffSpec.v", "Tools/DiffModel.v", "Tools/DiffExt.v", "Tools/DiffRun.v"]
 
 CFG = {
-    "C12": dict(props="Props/C12.v", lemmas=["Tools/DiffModelLemmas.v", "Tools/DiffIdentity.v", "Tools/DiffTotal.v", "Tools/DiffExtLemmas.v", "Tools/DiffCycle.v"], proj="PTotal", oracle="C12",
+    "C12": dict(props="Props/C12.v", lemmas=["Tools/DiffModelLemmas.v", "Tools/DiffIdentity.v", "Tools/DiffTotal.v", "Tools/DiffExtLemmas.v", "Tools/DiffCycle.v", "Tools/DiffExtTotal.v"], proj="PTotal", oracle="C12",
                 n_quick=(400, 240), n_thorough=(6000, 3000)),
     "C13": dict(props="Props/C13.v", lemmas=["Tools/DiffModelLemmas.v", "Tools/DiffSound.v", "Tools/DiffParams.v", "Tools/DiffIdentity.v", "Tools/DiffDocSound.v"], proj="PBreaking", oracle="C13",
                 n_quick=(900, 1200), n_thorough=(10000, 12000)),
